@@ -44,21 +44,21 @@ L0 == Scalars \o <<AnyArr, AnyMap>>
 
 \* the composite constructors applied to every type of a sequence
 ConsAll(B) ==
-     [i \in 1..Len(B) |-> Opt(B[i])]
-  \o [i \in 1..Len(B) |-> Hom(B[i])]
-  \o [i \in 1..Len(B) |-> <<"array", <<B[i], T("u64")>>>>]
-  \o [i \in 1..Len(B) |-> <<"array", <<T("text"), B[i]>>>>]
-  \o [i \in 1..Len(B) |-> WildT(B[i])]
-  \o [i \in 1..Len(B) |-> Keyed(<< <<KT("a"), B[i]>>, <<KT("b"), Opt(B[i])>> >>)]
+     Mat([i \in 1..Len(B) |-> Opt(B[i])])
+  \o Mat([i \in 1..Len(B) |-> Hom(B[i])])
+  \o Mat([i \in 1..Len(B) |-> <<"array", <<B[i], T("u64")>>>>])
+  \o Mat([i \in 1..Len(B) |-> <<"array", <<T("text"), B[i]>>>>])
+  \o Mat([i \in 1..Len(B) |-> WildT(B[i])])
+  \o Mat([i \in 1..Len(B) |-> Keyed(<< <<KT("a"), B[i]>>, <<KT("b"), Opt(B[i])>> >>)])
 ConsFew(B) ==
-     [i \in 1..Len(B) |-> WildI(B[i])]
-  \o [i \in 1..Len(B) |-> WildB(B[i])]
+     Mat([i \in 1..Len(B) |-> WildI(B[i])])
+  \o Mat([i \in 1..Len(B) |-> WildB(B[i])])
 ConsOuter(B) ==
-     [i \in 1..Len(B) |-> Opt(B[i])]
-  \o [i \in 1..Len(B) |-> Hom(B[i])]
-  \o [i \in 1..Len(B) |-> <<"array", <<T("text"), B[i]>>>>]
-  \o [i \in 1..Len(B) |-> WildT(B[i])]
-  \o [i \in 1..Len(B) |-> Keyed(<< <<KT("a"), B[i]>>, <<KT("b"), Opt(B[i])>> >>)]
+     Mat([i \in 1..Len(B) |-> Opt(B[i])])
+  \o Mat([i \in 1..Len(B) |-> Hom(B[i])])
+  \o Mat([i \in 1..Len(B) |-> <<"array", <<T("text"), B[i]>>>>])
+  \o Mat([i \in 1..Len(B) |-> WildT(B[i])])
+  \o Mat([i \in 1..Len(B) |-> Keyed(<< <<KT("a"), B[i]>>, <<KT("b"), Opt(B[i])>> >>)])
 
 Special ==
   << <<"array", <<T("i64"), T("f32"), T("vector")>>>>,                                     \* 3-tuple of the read-back sensitive leaves
@@ -92,12 +92,12 @@ Vals(t) ==
   CASE t[1] = "bool"   -> << <<"bool", TRUE>>, <<"bool", FALSE>> >>
     [] t[1] = "i64"    -> << I("i64min"), I("-1"), I("0"), I("i64max"), U("1"), U("i64max") >>
     [] t[1] = "u64"    -> << U("0"), U("i64max+1"), U("u64max") >>
-    [] t[1] = "f64"    -> [i \in 1..(Len(F64Atoms) - 1) |-> <<"f64", F64Atoms[i]>>]
-    [] t[1] = "f32"    -> [i \in 1..(Len(F32Atoms) - 1) |-> <<"f32", F32Atoms[i]>>]
+    [] t[1] = "f64"    -> Mat([i \in 1..(Len(F64Atoms) - 1) |-> <<"f64", F64Atoms[i]>>])
+    [] t[1] = "f32"    -> Mat([i \in 1..(Len(F32Atoms) - 1) |-> <<"f32", F32Atoms[i]>>])
                           \o << <<"f64", "2.71">>, <<"f64", "2.71f">>, <<"f64", "-0.0">>, <<"f64", "f32sub">>, <<"f64", "inf">> >>
     [] t[1] = "bytes"  -> << <<"bytes", <<>>>>, <<"bytes", <<"0", "255">>>>, <<"bytes", <<"42">>>> >>
     [] t[1] = "text"   -> << Tx(""), Tx("a"), Tx("*"), Tx("b64:AQID") >>
-    [] t[1] = "json"   -> [i \in 1..Len(JVals) |-> <<"json", JVals[i]>>]
+    [] t[1] = "json"   -> Mat([i \in 1..Len(JVals) |-> <<"json", JVals[i]>>])
     [] t[1] = "vector" -> << <<"vector", <<>>>>, <<"vector", <<"0", "32768", "32704", "65535", "32640", "65408", "1">>>>,
                              Arr(<< U("0"), U("65535") >>) >>
     [] t[1] = "option" -> <<Null>> \o Vals(t[2])
@@ -106,10 +106,10 @@ Vals(t) ==
          CASE Len(ts) = 0 -> << Arr(<<>>), Arr(<< U("1"), Tx("a"), Arr(<< <<"bool", TRUE>> >>) >>),
                                  Arr(<< I("1"), I("-1"), <<"f32", "1.5">>, <<"vector", <<"1">>>>, <<"json", JVals[10]>>, Null >>) >>
            [] Len(ts) = 1 -> LET vs == Vals(ts[1]) IN
-                             << Arr(<<>>) >> \o [i \in 1..Len(vs) |-> Arr(<<vs[i]>>)] \o << Arr(<<vs[1], vs[Len(vs)]>>) >>
-           [] OTHER       -> LET vss == [j \in 1..Len(ts) |-> Vals(ts[j])]
-                                 n == MaxF([j \in 1..Len(ts) |-> Len(vss[j])], Len(ts))
-                             IN [k \in 1..n |-> Arr([j \in 1..Len(ts) |-> Pick(vss[j], k)])]
+                             << Arr(<<>>) >> \o Mat([i \in 1..Len(vs) |-> Arr(<<vs[i]>>)]) \o << Arr(<<vs[1], vs[Len(vs)]>>) >>
+           [] OTHER       -> LET vss == Mat([j \in 1..Len(ts) |-> Vals(ts[j])])
+                                 n == MaxF(Mat([j \in 1..Len(ts) |-> Len(vss[j])]), Len(ts))
+                             IN Mat([k \in 1..n |-> Arr(Mat([j \in 1..Len(ts) |-> Pick(vss[j], k)]))])
     [] t[1] = "map"    ->
          LET es == t[2] IN
          CASE Len(es) = 0 -> << Mp(<<>>), Mp(<< <<KT("a"), U("1")>>, <<KT("b"), Mp(<< <<<<"i64", "-1">>, <<"bool", FALSE>>>> >>)>> >>),
@@ -117,13 +117,13 @@ Vals(t) ==
            [] IsWild(es)  -> LET vs == Vals(es[1][2])
                                  k1 == IF es[1][1][1] = "text" THEN KT("k") ELSE IF es[1][1][1] = "i64" THEN <<"i64", "-1">> ELSE <<"bytes", <<>>>>
                                  k2 == es[1][1]            \* the sentinel itself is a legal key
-                             IN << Mp(<<>>) >> \o [i \in 1..Len(vs) |-> Mp(<< <<k1, vs[i]>> >>)] \o << Mp(<< <<k1, vs[1]>>, <<k2, vs[Len(vs)]>> >>) >>
-           [] OTHER       -> LET vss == [j \in 1..Len(es) |-> Vals(es[j][2])]
-                                 n == MaxF([j \in 1..Len(es) |-> Len(vss[j])], Len(es))
+                             IN << Mp(<<>>) >> \o Mat([i \in 1..Len(vs) |-> Mp(<< <<k1, vs[i]>> >>)]) \o << Mp(<< <<k1, vs[1]>>, <<k2, vs[Len(vs)]>> >>) >>
+           [] OTHER       -> LET vss == Mat([j \in 1..Len(es) |-> Vals(es[j][2])])
+                                 n == MaxF(Mat([j \in 1..Len(es) |-> Len(vss[j])]), Len(es))
                                  \* keys whose type validates Null may be left out
-                                 req == SelectSeq([j \in 1..Len(es) |-> j], LAMBDA j : ~VI(es[j][2], Null))
-                             IN [k \in 1..n |-> Mp([j \in 1..Len(es) |-> <<es[j][1], Pick(vss[j], k)>>])]
-                                \o << Mp([x \in 1..Len(req) |-> <<es[req[x]][1], vss[req[x]][1]>>]) >>
+                                 req == SelectSeq(Mat([j \in 1..Len(es) |-> j]), LAMBDA j : ~VI(es[j][2], Null))
+                             IN Mat([k \in 1..n |-> Mp(Mat([j \in 1..Len(es) |-> <<es[j][1], Pick(vss[j], k)>>]))])
+                                \o << Mp(Mat([x \in 1..Len(req) |-> <<es[req[x]][1], vss[req[x]][1]>>])) >>
 
 ---------------------------------------------------------------------------
 (* Single mutations of a value, blind to the type: the specification says  *)
@@ -143,16 +143,16 @@ Muts(v, d) ==
         LET s == v[2] n == Len(s) IN
            << Arr(Append(s, IF n = 0 THEN U("0") ELSE s[n])) >>
         \o (IF n > 0 THEN << Arr(Front(s)) >> ELSE <<>>)
-        \o (IF d > 0 THEN FlattenSeq([i \in 1..n |-> LET ms == Muts(s[i], d - 1)
-                                                      IN [k \in 1..Len(ms) |-> Arr(ReplaceAt(s, i, ms[k]))]])
+        \o (IF d > 0 THEN FlattenSeq(Mat([i \in 1..n |-> LET ms == Muts(s[i], d - 1)
+                                                      IN Mat([k \in 1..Len(ms) |-> Arr(ReplaceAt(s, i, ms[k]))])]))
             ELSE <<>>)
       ELSE IF v[1] = "map" THEN
         LET s == v[2] n == Len(s) IN
            << Mp(Append(s, <<KT("zz"), IF n = 0 THEN U("0") ELSE s[1][2]>>)) >>
-        \o [i \in 1..n |-> Mp(RemoveAt(s, i))]
+        \o Mat([i \in 1..n |-> Mp(RemoveAt(s, i))])
         \o (IF n > 0 THEN << Mp(ReplaceAt(s, 1, <<ReKey(s[1][1]), s[1][2]>>)) >> ELSE <<>>)
-        \o (IF d > 0 THEN FlattenSeq([i \in 1..n |-> LET ms == Muts(s[i][2], d - 1)
-                                                      IN [k \in 1..Len(ms) |-> Mp(ReplaceAt(s, i, <<s[i][1], ms[k]>>))]])
+        \o (IF d > 0 THEN FlattenSeq(Mat([i \in 1..n |-> LET ms == Muts(s[i][2], d - 1)
+                                                      IN Mat([k \in 1..Len(ms) |-> Mp(ReplaceAt(s, i, <<s[i][1], ms[k]>>))])]))
             ELSE <<>>)
       ELSE <<>>)
 
@@ -162,9 +162,9 @@ Bases(vs) == LET n == Len(vs) IN
 MutDepth == 3
 CasesOf(t) ==
   LET vs == Vals(t) bs == Bases(vs) IN
-     [i \in 1..Len(vs) |-> <<"valid", vs[i]>>]
-  \o FlattenSeq([b \in 1..Len(bs) |-> LET ms == Muts(bs[b], MutDepth) IN [k \in 1..Len(ms) |-> <<"mut", ms[k]>>]])
-ValCases == [i \in 1..NT |-> CasesOf(TypeSeq[i])]
+     Mat([i \in 1..Len(vs) |-> <<"valid", vs[i]>>])
+  \o FlattenSeq(Mat([b \in 1..Len(bs) |-> LET ms == Muts(bs[b], MutDepth) IN Mat([k \in 1..Len(ms) |-> <<"mut", ms[k]>>])]))
+ValCases == Mat([i \in 1..NT |-> CasesOf(TypeSeq[i])])
 
 ---------------------------------------------------------------------------
 (* Budget edges.                                                           *)
@@ -172,6 +172,16 @@ RECURSIVE Nest(_, _), JNest(_, _)
 Nest(n, e) == IF n = 0 THEN e ELSE Arr(<<Nest(n - 1, e)>>)
 JNest(n, e) == IF n = 0 THEN e ELSE <<"jarr", <<JNest(n - 1, e)>>>>
 Rep(n, e) == <<"rep", n, e>>
+\* deep nests are EMITTED compressed (<<"nest",n,e>> = n single-element arrays around e) and expanded for evaluation
+NestC(n, e) == <<"nest", n, e>>
+JNestC(n, e) == <<"jnest", n, e>>
+RECURSIVE Expand(_)
+Expand(v) ==
+  CASE v[1] = "nest"  -> Nest(v[2], Expand(v[3]))
+    [] v[1] = "array" -> Arr(Mat([i \in 1..Len(v[2]) |-> Expand(v[2][i])]))
+    [] v[1] = "map"   -> Mp(Mat([i \in 1..Len(v[2]) |-> <<v[2][i][1], Expand(v[2][i][2])>>]))
+    [] v[1] = "json"  -> IF v[2][1] = "jnest" THEN <<"json", JNest(v[2][2], v[2][3])>> ELSE v
+    [] OTHER -> v
 BudCases ==
   << <<AnyArr, Rep(4096, U("0"))>>, <<AnyArr, Rep(4097, U("0"))>>,
      <<Hom(T("u64")), Rep(4096, U("1"))>>, <<Hom(T("u64")), Rep(4097, U("1"))>>,
@@ -179,10 +189,10 @@ BudCases ==
      <<Hom(Hom(T("u64"))), Arr(<< Rep(4096, U("1")), Rep(4096, U("1")), Rep(4096, U("1")), Rep(4091, U("1")) >>)>>,
      <<Hom(Hom(T("u64"))), Arr(<< Rep(4096, U("1")), Rep(4096, U("1")), Rep(4096, U("1")), Rep(4092, U("1")) >>)>>,
      <<Opt(Hom(T("text"))), Rep(4097, Tx("a"))>>,
-     <<AnyArr, Nest(64, U("0"))>>, <<AnyArr, Nest(65, U("0"))>>, <<AnyArr, Nest(66, Tx("a"))>>,
-     <<AnyMap, Mp(<< <<KT("a"), Nest(63, U("0"))>> >>)>>, <<AnyMap, Mp(<< <<KT("a"), Nest(64, U("0"))>> >>)>>,
-     <<T("json"), <<"json", JNest(63, <<"ju64", "0">>)>>>>, <<T("json"), <<"json", JNest(64, <<"ju64", "0">>)>>>>,
-     <<T("json"), Nest(64, U("0"))>>, <<T("json"), Nest(65, U("0"))>>,
+     <<AnyArr, NestC(64, U("0"))>>, <<AnyArr, NestC(65, U("0"))>>, <<AnyArr, NestC(66, Tx("a"))>>,
+     <<AnyMap, Mp(<< <<KT("a"), NestC(63, U("0"))>> >>)>>, <<AnyMap, Mp(<< <<KT("a"), NestC(64, U("0"))>> >>)>>,
+     <<T("json"), <<"json", JNestC(63, <<"ju64", "0">>)>>>>, <<T("json"), <<"json", JNestC(64, <<"ju64", "0">>)>>>>,
+     <<T("json"), NestC(64, U("0"))>>, <<T("json"), NestC(65, U("0"))>>,
      <<T("json"), <<"json", <<"jrep", 4096, <<"jbool", TRUE>>>>>>>>, <<T("json"), <<"json", <<"jrep", 4097, <<"jbool", TRUE>>>>>>>>,
      <<T("json"), <<"json", <<"jorep", 4096, <<"jnull">>>>>>>>, <<T("json"), <<"json", <<"jorep", 4097, <<"jnull">>>>>>>>,
      <<T("json"), <<"json", <<"jrep", 4, <<"jrep", 4095, <<"ju64", "1">>>>>>>>>>,
@@ -222,7 +232,8 @@ FieldPool ==
              <<Opt(WildT(ISN)), Mp(<< <<KT("k1"), MpSN("x", Tx("n"))>>, <<KT("k2"), MpS("y")>> >>), Mp(<< <<KT("k1"), MpSN("x", Null)>> >>)>>,
              <<WildT(ISN), Mp(<< <<KT("k1"), MpSN("x", Tx("n"))>> >>), Mp(<<>>)>>,
              <<Opt(WildI(ISN)), Mp(<< <<<<"i64", "-1">>, MpSN("x", Tx("n"))>> >>), None>>,
-             <<Opt(Hom(WildT(Opt(ISN)))), Arr(<< Mp(<< <<KT("k1"), MpSN("x", Tx("n"))>>, <<KT("k2"), Null>> >>) >>), Arr(<< Mp(<<>>) >>)>> >> ]
+             <<Opt(Hom(WildT(Opt(ISN)))), Arr(<< Mp(<< <<KT("k1"), MpSN("x", Tx("n"))>>, <<KT("k2"), Null>> >>) >>), Arr(<< Mp(<<>>) >>)>>,
+             <<Opt(Hom(WildT(Opt(IS)))), Arr(<< Mp(<< <<KT("k1"), MpS("x")>>, <<KT("k2"), Null>> >>) >>), None>> >> ]
 FNames == <<"b", "n", "t", "w">>          \* name order; "a" (Text, always there) sorts first
 K == IF Quick THEN 3 ELSE 4
 
@@ -230,19 +241,19 @@ RECURSIVE Pow(_, _)
 Pow(b, e) == IF e = 0 THEN 1 ELSE b * Pow(b, e - 1)
 Digit(h, base, k) == (h \div Pow(base, k - 1)) % base
 \* a history of field f: for every version the variant number (0 absent)
-Hist(f, h, len) == [k \in 1..len |-> Digit(h, Len(FieldPool[f]) + 1, k)]
+Hist(f, h, len) == Mat([k \in 1..len |-> Digit(h, Len(FieldPool[f]) + 1, k)])
 NHist(f, len) == Pow(Len(FieldPool[f]) + 1, len)
 
 \* chains: <<vers, hists>> with hists a function field -> history
-Absent(len) == [k \in 1..len |-> 0]
+Absent(len) == Mat([k \in 1..len |-> 0])
 Single(f, h, len) == [g \in {"b", "n", "t", "w"} |-> IF g = f THEN Hist(f, h, len) ELSE Absent(len)]
-Vers(len) == [k \in 1..len |-> k]
-SingleChains(f) == [h \in 1..NHist(f, K) |-> <<Vers(K), Single(f, h - 1, K)>>]
+Vers(len) == Mat([k \in 1..len |-> k])
+SingleChains(f) == Mat([h \in 1..NHist(f, K) |-> <<Vers(K), Single(f, h - 1, K)>>])
 KP == IF Quick THEN 2 ELSE 3
 PairChains(f, g) ==
-  FlattenSeq([h1 \in 1..NHist(f, KP) |-> [h2 \in 1..NHist(g, KP) |->
+  FlattenSeq(Mat([h1 \in 1..NHist(f, KP) |-> Mat([h2 \in 1..NHist(g, KP) |->
      <<Vers(KP), [x \in {"b", "n", "t", "w"} |-> IF x = f THEN Hist(f, h1 - 1, KP)
-                                                  ELSE IF x = g THEN Hist(g, h2 - 1, KP) ELSE Absent(KP)]>>]])
+                                                  ELSE IF x = g THEN Hist(g, h2 - 1, KP) ELSE Absent(KP)]>>])]))
 VerChains == << << <<1, 1>>, Single("b", 0, 2)>>, << <<2, 1>>, Single("b", 0, 2)>>, << <<0, 5, 5>>, Single("b", 5, 3)>> >>
 Chains == SingleChains("b") \o SingleChains("n") \o SingleChains("t") \o SingleChains("w")
           \o PairChains("b", "n") \o PairChains("n", "w") \o (IF Quick THEN <<>> ELSE PairChains("t", "w")) \o VerChains
@@ -251,14 +262,14 @@ NC == Len(Chains)
 \* the declaration of version k of a chain: "a" then the present fields in name order
 DeclOf(hists, k) ==
   << <<"a", T("text"), FALSE>> >>
-  \o FlattenSeq([x \in 1..Len(FNames) |-> LET f == FNames[x] d == hists[f][k]
-                                          IN IF d = 0 THEN <<>> ELSE << <<f, FieldPool[f][d][1], FALSE>> >>])
+  \o FlattenSeq(Mat([x \in 1..Len(FNames) |-> LET f == FNames[x] d == hists[f][k]
+                                          IN IF d = 0 THEN <<>> ELSE << <<f, FieldPool[f][d][1], FALSE>> >>]))
 \* the document written at version k: <<name, value>>; which = 2 full, 3 minimal
 DocOf(hists, k, which) ==
   << <<"a", Tx("x")>> >>
-  \o FlattenSeq([x \in 1..Len(FNames) |-> LET f == FNames[x] d == hists[f][k]
+  \o FlattenSeq(Mat([x \in 1..Len(FNames) |-> LET f == FNames[x] d == hists[f][k]
                                           IN IF d = 0 \/ FieldPool[f][d][which][1] = "none" THEN <<>>
-                                             ELSE << <<f, FieldPool[f][d][which]>> >>])
+                                             ELSE << <<f, FieldPool[f][d][which]>> >>]))
 
 RECURSIVE Schemas(_, _, _)
 Schemas(D, V, acc) ==
@@ -268,24 +279,24 @@ Schemas(D, V, acc) ==
   ELSE IF CanUpgrade(D[i], V[i], acc[i - 1]) THEN Schemas(D, V, Append(acc, Upgrade(D[i], V[i], acc[i - 1])))
   ELSE acc
 
-IdxDoc(s, doc) == [i \in 1..Len(doc) |-> <<s.fields[FindName(s.fields, doc[i][1])][4], doc[i][2]>>]
+IdxDoc(s, doc) == Mat([i \in 1..Len(doc) |-> <<s.fields[FindName(s.fields, doc[i][1])][4], doc[i][2]>>])
 \* what the property promises for a document written (canonical) under schema s and read under schema r:
 \* the fields whose idx r still declares, with the keys r no longer declares dropped, nothing else touched
 Promise(r, idoc) ==
   LET kept == SelectSeq(idoc, LAMBDA e : FindIdx(r.fields, e[1]) # 0)
-  IN <<"ok", [i \in 1..Len(kept) |-> <<kept[i][1], Prune(r.fields[FindIdx(r.fields, kept[i][1])][2], kept[i][2])>>]>>
+  IN <<"ok", Mat([i \in 1..Len(kept) |-> <<kept[i][1], Prune(r.fields[FindIdx(r.fields, kept[i][1])][2], kept[i][2])>>])>>
 
 UpgCase(c) ==
   LET vers == Chains[c][1] hists == Chains[c][2] len == Len(vers)
-      D == [k \in 1..len |-> DeclOf(hists, k)]
+      D == Mat([k \in 1..len |-> DeclOf(hists, k)])
       S == Schemas(D, vers, <<>>)
       np == Len(S)
-      docs == FlattenSeq([k \in 1..np |-> << <<k, DocOf(hists, k, 2)>>, <<k, DocOf(hists, k, 3)>> >>])
-      reads == FlattenSeq([d \in 1..Len(docs) |->
+      docs == FlattenSeq(Mat([k \in 1..np |-> << <<k, DocOf(hists, k, 2)>>, <<k, DocOf(hists, k, 3)>> >>]))
+      reads == FlattenSeq(Mat([d \in 1..Len(docs) |->
                  LET k == docs[d][1] idoc == IdxDoc(S[k], docs[d][2])
-                 IN [j \in k..np |-> LET got == ReadDoc(S[j], StoredDoc(idoc))
-                                     IN [doc |-> d, at |-> j, expect |-> got, law |-> got = Promise(S[j], idoc)]]])
-  IN [fam |-> "upg", c |-> c, vers |-> vers, decls |-> D, schemas |-> [k \in 1..np |-> <<S[k].next, [i \in 1..Len(S[k].fields) |-> <<S[k].fields[i][1], S[k].fields[i][4]>>]>>],
+                 IN Mat([x \in 1..(np - k + 1) |-> LET j == k + x - 1 got == ReadDoc(S[j], StoredDoc(idoc))
+                                                 IN [doc |-> d, at |-> j, expect |-> got, law |-> got = Promise(S[j], idoc)]])]))
+  IN [fam |-> "upg", c |-> c, vers |-> vers, decls |-> D, schemas |-> Mat([k \in 1..np |-> <<S[k].next, Mat([i \in 1..Len(S[k].fields) |-> <<S[k].fields[i][1], S[k].fields[i][4]>>])>>]),
       permitted |-> np, docs |-> docs, reads |-> reads,
       written_valid |-> \A d \in 1..Len(docs) : \A i \in 1..Len(docs[d][2]) :
                           LET s == S[docs[d][1]] t == s.fields[FindName(s.fields, docs[d][2][i][1])][2] v == docs[d][2][i][2]
@@ -328,10 +339,10 @@ RVals(r) ==
     [] r[1] = "u16" -> << U("0"), U("256"), U("65535") >>
     [] r[1] = "u32" -> << U("0"), U("65535"), U("65536") >>
     [] r[1] \in {"u64", "usize"} -> << U("0"), U("65536"), U("i64max"), U("i64max+1"), U("u64max") >>
-    [] r[1] = "f32" -> [i \in 1..(Len(F32Atoms) - 1) |-> <<"f32", F32Atoms[i]>>]
-    [] r[1] = "f64" -> [i \in 1..(Len(F64Atoms) - 1) |-> <<"f64", F64Atoms[i]>>]
+    [] r[1] = "f32" -> Mat([i \in 1..(Len(F32Atoms) - 1) |-> <<"f32", F32Atoms[i]>>])
+    [] r[1] = "f64" -> Mat([i \in 1..(Len(F64Atoms) - 1) |-> <<"f64", F64Atoms[i]>>])
     [] r[1] = "string" -> << Tx(""), Tx("a"), Tx("b64:AQID") >>
-    [] r[1] = "json" -> [i \in 2..Len(JVals) |-> <<"json", JVals[i]>>]          \* Some(Json null) is None to serde
+    [] r[1] = "json" -> Mat([i \in 1..(Len(JVals) - 1) |-> <<"json", JVals[i + 1]>>])          \* Some(Json null) is None to serde
     [] r[1] = "bytebuf" -> << <<"bytes", <<>>>>, <<"bytes", <<"0", "255">>>> >>
     [] r[1] = "opt" -> <<Null>> \o RVals(r[2])
     [] r[1] = "box" -> RVals(r[2])
@@ -347,16 +358,16 @@ RVals(r) ==
              k2 == IF r[2][1] = "string" THEN KT("*") ELSE IF r[2][1] \in SignedInts THEN <<"i64", "255">> ELSE <<"bytes", <<"42">>>>
          IN << Mp(<<>>), Mp(<< <<k1, vs[1]>> >>), Mp(<< <<k1, vs[Len(vs)]>>, <<k2, Pick(vs, 2)>> >>) >>
     [] r[1] = "struct" ->
-         LET vss == [j \in 1..Len(r[2]) |-> RVals(r[2][j][2])]
-             n == MaxF([j \in 1..Len(r[2]) |-> Len(vss[j])], Len(r[2]))
-         IN [k \in 1..n |-> Mp([j \in 1..Len(r[2]) |-> <<KT(r[2][j][1]), Pick(vss[j], k)>>])]
+         LET vss == Mat([j \in 1..Len(r[2]) |-> RVals(r[2][j][2])])
+             n == MaxF(Mat([j \in 1..Len(r[2]) |-> Len(vss[j])]), Len(r[2]))
+         IN Mat([k \in 1..n |-> Mp(Mat([j \in 1..Len(r[2]) |-> <<KT(r[2][j][1]), Pick(vss[j], k)>>]))])
 
 DerCase(s) ==
   LET st == Structs[s]
-      fts == [i \in 1..Len(st.fields) |-> <<st.fields[i][1], DeriveFT(st.fields[i][2])>>]
-      vss == [i \in 1..Len(st.fields) |-> RVals(st.fields[i][2])]
-      n == MaxF([i \in 1..Len(vss) |-> Len(vss[i])], Len(vss))
-      rows == [k \in 1..n |-> [i \in 1..Len(vss) |-> <<st.fields[i][1], Pick(vss[i], k)>>]]
+      fts == Mat([i \in 1..Len(st.fields) |-> <<st.fields[i][1], DeriveFT(st.fields[i][2])>>])
+      vss == Mat([i \in 1..Len(st.fields) |-> RVals(st.fields[i][2])])
+      n == MaxF(Mat([i \in 1..Len(vss) |-> Len(vss[i])]), Len(vss))
+      rows == Mat([k \in 1..n |-> Mat([i \in 1..Len(vss) |-> <<st.fields[i][1], Pick(vss[i], k)>>])])
   IN [fam |-> "der", name |-> st.name, types |-> fts, rows |-> rows,
       rows_canonical |-> \A k \in 1..n : \A i \in 1..Len(vss) :
                            LET t == fts[i][2] v == rows[k][i][2]
@@ -391,17 +402,17 @@ ValCase ==
       valid |-> FieldValid(t0, v0), norm |-> norm, setok |-> setok, storable |-> storable,
       raw |-> IF setok /\ storable THEN Stored(norm) ELSE Err,
       canon |-> IF setok /\ storable THEN Canon(t0, norm) ELSE Err,
-      typed |-> typed]
+      typed |-> typed, coerce |-> Coerce(t0, v0)]
 
 BudCase ==
-  LET t == BudCases[ti][1] v == BudCases[ti][2] IN
-  [fam |-> "bud", t |-> t, v |-> v, valid |-> FieldValid(t, v), setok |-> FieldValid(t, Norm(t, v)),
+  LET t == BudCases[ti][1] v == Expand(BudCases[ti][2]) IN
+  [fam |-> "bud", t |-> t, v |-> BudCases[ti][2], valid |-> FieldValid(t, v), setok |-> FieldValid(t, Norm(t, v)),
    typedok |-> ~IsErr(Typed(t, v)), nodes |-> Nodes(v), height |-> Height(v)]
 
 AxCase ==
   [fam |-> "ax",
-   ints |-> [i \in 1..Len(IntAtoms) |-> LET a == IntAtoms[i] IN <<a, Neg(a), FitsI64(a), FitsU64(a), FitsU16(a), FitsU8(a)>>],
-   f64s |-> [i \in 1..Len(F64Atoms) |-> LET f == F64Atoms[i] IN <<f, IsNaN(f), Finite(f), RoundF32(f), F32InRange(f), F32ReadBack(f)>>],
+   ints |-> Mat([i \in 1..Len(IntAtoms) |-> LET a == IntAtoms[i] IN <<a, Neg(a), FitsI64(a), FitsU64(a), FitsU16(a), FitsU8(a)>>]),
+   f64s |-> Mat([i \in 1..Len(F64Atoms) |-> LET f == F64Atoms[i] IN <<f, IsNaN(f), Finite(f), RoundF32(f), F32InRange(f), F32ReadBack(f)>>]),
    f32s |-> F32Atoms,
    budget |-> <<MaxDepth, MaxNodes, MaxArrayLen, MaxMapEntries>>]
 
